@@ -488,6 +488,89 @@ def check_reparse(spec, ctx):
     ctx.eq("reexport_fixpoint_ids", sorted(set(GUID_RE.findall(t2))), sorted(set(GUID_RE.findall(t1))))
 
 
+# ------------------------------------------------------------------------------------ re-parse of feature collections
+
+
+def check_reparse_features(spec, ctx):
+    """feature collections through export -> parse: the collection-level facts survive (count, name, locus tag, qualifiers, span,
+    sequence name, the union of feature types, every base of every feature covered, direction); the structure of the features
+    inside a collection does not (finding F27)"""
+    o = spec["obj"]
+    ctx.nt()
+    coll, text = export(dict(spec, chunk_mode=False, fasta=False))
+    recs = parse_text(text, False)
+    if not ctx.eq("one_record", len(recs), 1):
+        return
+    parsed = recs[0].to_annotation_collection()
+    src = {c["locus_tag"]: c for c in o["feature_collections"]}
+    got = {c.locus_tag: c for c in parsed.feature_collections}
+    ctx.eq("fc_no_genes_invented", len(parsed.genes), 0)
+    if not ctx.eq("fc_locus_tags", sorted(got), sorted(src)):
+        return
+    structure_ok = True
+    for lt, sc in src.items():
+        pc = got[lt]
+        feats = sc["features"]
+        lo, hi = min(f["blocks"][0][0] for f in feats), max(f["blocks"][-1][1] for f in feats)
+        ctx.eq("fc_name", pc.feature_collection_name, sc.get("feature_collection_name"))
+        ctx.eq("fc_span", (pc.start, pc.end), (lo, hi))
+        ctx.eq("fc_sequence_name", pc.sequence_name, "chr1")
+        cq = {emitted_key(k): split_vals(v) for k, v in (sc.get("qualifiers") or {}).items()}
+        ctx.eq("fc_qualifiers", {k: set(v) for k, v in (pc.qualifiers or {}).items()}, cq)
+        src_types = set(t for f in feats for t in (f.get("feature_types") or []))
+        got_types = set(t for f in pc.feature_intervals for t in (f.feature_types or []))
+        ctx.true("fc_feature_types_kept", src_types <= got_types, {"source": sorted(src_types), "parsed": sorted(got_types)})
+        src_pos = set(p for f in feats for b in f["blocks"] for p in range(b[0], b[1]))
+        got_pos = set(p for f in pc.feature_intervals for b in f.chromosome_location.blocks for p in range(b.start, b.end))
+        ctx.true("fc_every_feature_base_covered", src_pos <= got_pos <= set(range(lo, hi)), {"missing": sorted(src_pos - got_pos)[:5], "outside_span": sorted(got_pos - set(range(lo, hi)))[:5]})
+        strands = {f["strand"] for f in feats}
+        if len(strands) == 1:
+            ctx.eq("fc_direction", sorted({f.strand.to_symbol() for f in pc.feature_intervals}), sorted(strands))
+        names = {f.get("feature_name") for f in feats}
+        ctx.true("fc_feature_names_from_source", all(f.feature_name in names for f in pc.feature_intervals), [f.feature_name for f in pc.feature_intervals])
+        want = sorted((tuple(map(tuple, f["blocks"])), f["strand"], f.get("feature_name"), f.get("feature_id")) for f in feats)
+        have = sorted((tuple((b.start, b.end) for b in f.chromosome_location.blocks), f.strand.to_symbol(), f.feature_name, f.feature_id) for f in pc.feature_intervals)
+        if have != want:
+            structure_ok = False
+            ctx.fail("fc_features_structure", {"got": have, "expected": want})
+    if len(o["feature_collections"]) and any(len(c["features"]) > 1 or len(c["features"][0]["blocks"]) > 1 for c in o["feature_collections"]):
+        ctx.label("multi_feature_or_multi_block_collection")
+    # re-export
+    buf = io.StringIO()
+    with warnings.catch_warnings():
+        warnings.simplefilter("ignore")
+        collection_to_gff3([parsed], buf)
+    n0, n1 = normalize_ids(text), normalize_ids(buf.getvalue())
+    if n0 != n1:
+        ctx.fail("fc_reexport_reproduces_file", {"only_in_original": [x for x in n0 if x not in n1][:2], "only_in_reexport": [x for x in n1 if x not in n0][:2]})
+
+
+@st.composite
+def strat_reparse_features(draw, tier="quick"):
+    n_fc = draw(st.integers(1, 2))
+    fcs = []
+    cursor = draw(st.integers(0, 4))
+    for i in range(n_fc):
+        fc = draw(S.feature_collection_spec(max_feat=draw(st.sampled_from([1, 1, 2, 3])), max_blocks=draw(st.sampled_from([1, 1, 2, 3])), max_len=7, region=[cursor, 0]))
+        fc["locus_tag"] = "FLT_%d" % i
+        fc["feature_collection_name"] = draw(st.one_of(st.none(), st.just("fcname%d" % i)))
+        fc["feature_collection_id"] = draw(st.one_of(st.none(), st.just("fcid%d" % i)))
+        fc["qualifiers"] = draw(S.simple_qualifiers(2))
+        for j, f in enumerate(fc["features"]):
+            f["feature_name"] = "feat%d_%d" % (i, j)
+            f["qualifiers"] = draw(S.simple_qualifiers(1))
+        fcs.append(fc)
+        cursor = max(f["blocks"][-1][1] for f in fc["features"]) + draw(st.integers(1, 6))
+    n = cursor + draw(st.integers(1, 5))
+    return {"obj": {"genes": [], "feature_collections": fcs, "name": None}, "genome": draw(S.dna(n, n))}
+
+
+def pred_fc_structure(spec, clause, detail):
+    """F27: a collection with more than one feature, or a feature of more than one block (the writer emits three levels, the parser
+    reads a top-level feature and its direct children only)"""
+    return any(len(c["features"]) > 1 or any(len(f["blocks"]) > 1 for f in c["features"]) for c in spec["obj"].get("feature_collections", []))
+
+
 # ------------------------------------------------------------------------------------ attribute escaping leg
 
 
@@ -649,6 +732,9 @@ PROP = Prop(
                       "special_char:space", "special_char:gt", "special_char:amp", "special_char:dquote", "special_char:squote", "special_char:comma",
                       "special_char:unicode", "chunk_mode", "with_fasta", "reserved_key_in_qualifiers", "cutting_chunk_chromosome_coordinates"],
             rule="collections (genes with 1..2 isoforms, feature collections) with qualifier values over the full special-character set and look-alike/reserved keys, +-FASTA, chromosome or chunk-relative mode; the text is read by an independent 9-column reader with percent-decoding"),
+        Leg("reparse_features", check_reparse_features, strategy=strat_reparse_features, n_quick=40, n_thorough=400, shards_quick=4,
+            must_hit=["multi_feature_or_multi_block_collection"],
+            rule="1..2 feature collections (1..3 features of 1..3 blocks, qualifiers) exported and parsed back: count, locus tag, name, collection qualifiers, span, sequence name, union of feature types, coverage of every feature base, direction; the inner structure of the features is finding F27"),
         Leg("multi_sequence", check_multi, strategy=strat_multi, n_quick=120, n_thorough=1500, shards_quick=4,
             must_hit=["collections_given_out_of_name_order", "unordered", "with_fasta"],
             rule="2..3 collections on differently named sequences written into ONE file (ordered / unordered, +-FASTA): one block of rows per sequence in the documented order, each block equal to its collection's rows and ordered by start, IDs unique and Parents resolving over the whole file, one FASTA record and sequence-region directive per sequence"),
@@ -666,5 +752,7 @@ PROP = Prop(
         "qualifier keys differ case-insensitively (keys are lower-cased on export, documented)",
         "gffutils 0.14 as installed",
     ],
-    predicates={"dup_cds": pred_dup_cds},
+    predicates={"dup_cds": pred_dup_cds, "fc_structure": pred_fc_structure,
+                "fc_any": lambda spec, clause, detail: bool(spec["obj"].get("feature_collections")),
+                "fc_mixed_strands": lambda spec, clause, detail: any(len({f["strand"] for f in c["features"]}) > 1 for c in spec["obj"].get("feature_collections", []))},
 )
